@@ -49,13 +49,15 @@ def generate(rng, tier):
     container = rng.choice(["list", "list", "tuple", "generator", "ndarray_object"])
     na_pat = rng.choice(["none", "none", "some", "first", "last", "all"])
     if kind == "mixed":
-        sub = rng.sample(["bool", "int", "float", "str", "date", "object"], 2)
+        sub = rng.sample(["bool", "int", "float", "str", "date", "object", "datetime", "date"], 2)
         vals = [rng.choice(gen.pool(rng, "obj" if k == "object" else k, 0.1)) for k in (rng.choice(sub) for _ in range(n))]
         vals = [v if not isinstance(v, (list, tuple, dict)) else "obj" for v in vals]
     elif kind == "object":
         vals = [rng.choice([Opaque(1), Opaque(2), {"k": 1}, {"k": 2}, frozenset([1])]) for _ in range(n)]
     else:
         p = gen.pool(rng, kind, 0.3)
+        if kind == "str" and rng.random() < 0.3:
+            p = gen.pool(rng, "lstr", 0.3)      # strings beyond the in-place (small string) representation
         if kind == "float":
             p = [v for v in p if not (isinstance(v, float) and math.isinf(v))] + [math.inf]
         vals = [rng.choice(p) for _ in range(n)]
@@ -186,6 +188,18 @@ def execute(case):
                 res.violate(f"tolist:value-changed:{kind}", f"{ctx}: tolist()[{i}] = {t!r} but the original is {x!r}")
                 break
         res.count("tolist-values-checked", n)
+    elif kind == "mixed" and not dtype and container != "ndarray_object" and len({type(x) for x, m in zip(vals, exp_na) if not m}) > 1:
+        # values of different Python types with no common NumPy type: whatever the vector is stored as, a value that comes back
+        # in its original type must be the original value (a date stays that date and time, a string that string)
+        for i, (t, x, m) in enumerate(zip(tl, vals, exp_na)):
+            if m: continue
+            if type(t) is type(x) and not isinstance(x, float) and t != x:
+                res.violate("tolist:value-changed:mixed", f"{ctx}: tolist()[{i}] = {t!r} but the original is {x!r}")
+                break
+            if isinstance(x, datetime.datetime) and isinstance(t, datetime.date) and not isinstance(t, datetime.datetime):
+                res.violate("tolist:value-changed:mixed:datetime-truncated", f"{ctx}: tolist()[{i}] = {t!r} but the original is {x!r} (dtype {arr.dtype})")
+                break
+        res.count("tolist-mixed-checked")
     # ---- rebuild law
     try:
         w = di.Vector(tl, arr.dtype)
@@ -283,6 +297,16 @@ def execute(case):
             exp_r = [cells[keep[0]] if m else c for c, m in zip(cells, exp_na)]
             if rc != exp_r and not canon.cells_eq(rc, exp_r):
                 res.violate("replace_na:wrong-elements", f"{ctx}: replace_na({fill!r}) gave {canon.short(rc)} expected {canon.short(exp_r)}")
+            if v.is_string() and any(exp_na):
+                # a fill value longer than anything in the vector (heap-allocated string in a vector of short ones, and the other way round)
+                for fill2 in ("z" * 17 + "\u00f6", "q"):
+                    r2 = v.replace_na(fill2)
+                    rc2 = canon.col_cells(r2)
+                    exp2 = [("S", fill2) if m else c for c, m in zip(cells, exp_na)]
+                    if rc2 != exp2:
+                        res.violate("replace_na:wrong-elements:fresh-fill", f"{ctx}: replace_na({fill2!r}) gave {canon.short(rc2)} expected {canon.short(exp2)}")
+                        break
+                res.count("replace-fresh-fill-checked")
         res.count("drop-replace-checked")
     except Exception as e:
         res.violate(f"drop_na/replace_na:raised:{exc_name(e)}", f"{ctx}: {e!r}")
